@@ -19,6 +19,7 @@ func init() {
 }
 
 func runC08(c *an.Ctx) {
+	libFsm2(c)
 	r08a(c)
 	r08b(c)
 	r08c(c)
